@@ -238,7 +238,7 @@ fn literal_case(rng: &mut Rng) -> (String, Option<V>) {
     (text, v)
 }
 
-const FUNCS: [&str; 8] = ["ABS", "SGN", "INT", "FIX", "CINT", "CSNG", "CDBL", "SQR"];
+const FUNCS: [&str; 14] = ["ABS", "SGN", "INT", "FIX", "CINT", "CSNG", "CDBL", "SQR", "SIN", "COS", "TAN", "ATN", "EXP", "LOG"];
 
 /// Documented value (and, where the manual fixes it, type) of a numeric function.
 fn model_fn(name: &str, v: &V) -> (mv::MR<V>, mv::Tol) {
@@ -262,6 +262,32 @@ fn model_fn(name: &str, v: &V) -> (mv::MR<V>, mv::Tol) {
             Err(e) => (Err(e), Tol::Exact),
         },
         "CDBL" => (Ok(V::D(x)), Tol::Exact),
+        "SIN" | "COS" | "TAN" | "ATN" | "EXP" | "LOG" => {
+            // computed in the operand's precision (Integer operands as Single); compared loosely
+            if x.abs() > 80.0 || (name == "LOG" && x <= 0.0) {
+                return (Err(MErr::Unspec), Tol::Loose);
+            }
+            let f = |y: f64| match name {
+                "SIN" => y.sin(),
+                "COS" => y.cos(),
+                "TAN" => y.tan(),
+                "ATN" => y.atan(),
+                "EXP" => y.exp(),
+                _ => y.ln(),
+            };
+            match v {
+                V::D(_) => (Ok(V::D(f(x))), Tol::Loose),
+                _ => {
+                    let r = f((x as f32) as f64) as f32;
+                    // near a zero or a pole the relative error of the Single routines is unbounded
+                    if !r.is_finite() || (r != 0.0 && r.abs() < 1e-3) || r.abs() > 1e6 {
+                        (Err(MErr::Unspec), Tol::Loose)
+                    } else {
+                        (Ok(V::S(r)), Tol::Loose)
+                    }
+                }
+            }
+        }
         _ => {
             // SQR: exact for perfect squares, otherwise correctly rounded in the operand's precision
             if x < 0.0 {
@@ -355,7 +381,49 @@ impl Prop for C02 {
 
 impl C02 {
     /// Literal typing rules and numeric functions: the typed value on the stack at PRINT.
+    /// RND as documented: a Single in [0,1); RND(0) repeats the previous number; a negative argument
+    /// seeds the generator, so the same seed gives the same sequence.
+    fn rnd_case(&self, rng: &mut Rng, ctx: &mut Ctx) {
+        use crate::drive::{transcript, Norm};
+        let k = rng.range(1, 30000);
+        let arg = *rng.pick(&["1", "", "2.5", "7%", "1#"]);
+        let call = format!("RND({})", arg);
+        let script = [
+            format!("X=RND(-{}):A={}:B={}:C=RND(0):PRINT (A>=0)+(A<1)+(B>=0)+(B<1);C=B;A<>B", k, call, call),
+            format!("X=RND(-{}):D={}:E={}:PRINT (D=A)+(E=B)", k, call, call),
+        ];
+        let text = script.join("\n");
+        mon::journal(&text);
+        let mut s = Session::new();
+        s.drain(8);
+        let mark = s.mark();
+        for l in &script {
+            if s.command(l, 64) != Stop::Stopped {
+                ctx.violation("no-stop", "expr:rnd:no-stop", "no return to the prompt", &text);
+                return;
+            }
+        }
+        let got = transcript(s.events_since(mark), Norm::STD);
+        ctx.eval(&text, true);
+        ctx.count("rnd_sessions");
+        let pr = s.rt.verif_probe();
+        let single = pr.vars.iter().filter(|(n, _)| ["A", "B", "C", "D", "E"].contains(&n.as_str())).all(|(_, v)| matches!(v, basic::mach::Val::Single(_)));
+        // four range tests true (-4), RND(0) repeats (-1), two draws differ (-1); same seed, same sequence (-2)
+        let want = "-4 -1 -1 \nREADY.\n<STOPPED>-2 \nREADY.\n<STOPPED>";
+        if got != want || !single {
+            ctx.violation(
+                "rnd",
+                "expr:rnd",
+                &format!("{}\n printed {:?}, documented behaviour gives {:?}; values are Singles: {}", text, got, want, single),
+                &text,
+            );
+        }
+    }
+
     fn literal_or_function(&self, idx: u64, rng: &mut Rng, ctx: &mut Ctx) {
+        if (idx / 8) % 16 == 15 {
+            return self.rnd_case(rng, ctx);
+        }
         if (idx / 8) % 2 == 0 {
             let (text, want) = literal_case(rng);
             mon::journal(&format!("PRINT {}", text));
